@@ -151,6 +151,24 @@ extern "C" int epoll_wait(int fd, struct epoll_event* ev, int max, int timeout)
   return ipRealEpollWait(fd, ev, max, timeout);
 }
 
+// ---- getsockopt(SO_ERROR): scripted connect failure --------------------------------------------
+static int ipFailConnectFd[16];
+static int ipNFailConnect = 0;
+
+extern "C" int getsockopt(int fd, int level, int optname, void* optval, socklen_t* optlen)
+{
+  if(level == SOL_SOCKET && optname == SO_ERROR)
+    for(int i = 0; i < ipNFailConnect; ++i)
+      if(ipFailConnectFd[i] == fd)
+      {
+        ipFailConnectFd[i] = ipFailConnectFd[--ipNFailConnect];
+        *(int*)optval = ECONNREFUSED;
+        *optlen = sizeof(int);
+        return 0;
+      }
+  return (int)syscall(SYS_getsockopt, fd, level, optname, optval, optlen);
+}
+
 // ---- virtual clock ------------------------------------------------------------------------
 static bool ipVirtualClock = false;
 static long long ipNow = 1000;      // virtual milliseconds
